@@ -60,7 +60,12 @@ pub fn worker_main(id: &str, tier: Tier, seed: u64, shard: u32, nshards: u32, bu
     cx.only_group = only_group;
     let jpath = out.with_extension("journal");
     cx.journal = fs::OpenOptions::new().create(true).write(true).truncate(true).open(&jpath).ok();
-    check.shard(&mut cx);
+    // a panic of the harness itself is a harness error (exit 3 => inconclusive), never a verdict
+    let r = std::panic::catch_unwind(std::panic::AssertUnwindSafe(|| check.shard(&mut cx)));
+    if r.is_err() {
+        eprintln!("HARNESS-ERROR: the monitor itself panicked in group {}", cx.group);
+        return 3;
+    }
     // shrink new violations (bounded)
     let sigs: Vec<String> = cx.stats.viols.keys().cloned().collect();
     for sig in sigs.iter().take(12) {
@@ -276,7 +281,11 @@ pub fn run_main(o: &RunOpts) -> i32 {
     let mut crash_viols: Vec<Viol> = Vec::new();
     for w in workers.iter() {
         let crashed = timed_out.contains(&w.shard) || w.done.map(|s| !s.success()).unwrap_or(true);
-        if crashed {
+        let harness_err = w.done.map(|s| s.code() == Some(3) || s.code() == Some(2)).unwrap_or(false);
+        if crashed && harness_err {
+            let tail = fs::read_to_string(w.out.with_extension("err")).unwrap_or_default();
+            inconclusive.push(format!("worker {} stopped with a harness error: {}", w.shard, tail.lines().last().unwrap_or("")));
+        } else if crashed {
             let how = if timed_out.contains(&w.shard) {
                 "exceeded the watchdog".to_string()
             } else {
